@@ -38,7 +38,7 @@ def _mkenv(backend):
 
 ENV = _mkenv('make')
 ROOT_OF = {0: InstallRoot.bindir, 1: InstallRoot.libdir, 2: InstallRoot.includedir,
-           3: InstallRoot.mandir, 4: InstallRoot.libdir}
+           3: InstallRoot.mandir, 4: InstallRoot.libdir, 5: InstallRoot.mandir}
 
 
 def _mkpath(suffix, root=Root.builddir):
@@ -64,13 +64,17 @@ def _mkfile(kind, name):
         return ft.HeaderFile(_mkpath('include/' + name, Root.srcdir), 'c')
     if kind == 3:
         return ft.ManPage(_mkpath('doc/' + name, Root.srcdir), '1')
+    if kind == 5:
+        # a generated (e.g. gzip-compressed) man page living in a build subdirectory
+        return ft.ManPage(_mkpath('doc/man/' + name), '3')
     return ft.StaticLibrary(_mkpath('lib' + name + '.a'), 'elf', 'c')
 
 
 def _expected_rel(kind, name):
     """path below the install root of the kind: build-tree files keep their directory, source-tree
     files are installed by basename, man pages below man<level>/"""
-    return ['sub/' + name, 'lib' + name + '.so', name, 'man1/' + name, 'lib' + name + '.a'][kind]
+    return ['sub/' + name, 'lib' + name + '.so', name, 'man1/' + name, 'lib' + name + '.a',
+            'man3/' + name][kind]
 
 
 def i_installify(name: str, d: str) -> bool:
@@ -307,4 +311,20 @@ def d_dep_closure(edges: List[bool], explicit: List[bool]) -> bool:
         h = out.host[bins[i]]
         root = InstallRoot.bindir if i == 0 else InstallRoot.libdir
         ok = ok and h.path.root == root and h.path.suffix == bins[i].path.suffix and h.path.destdir
+    # every installed file that needs post-processing (run-time path rewriting) gets it, whether it
+    # was named explicitly or pulled in as a dependency
+    for i in range(4):
+        bins[i].post_install = (lambda k: (lambda outputs: ['fixup', str(k)]))(i)
+
+    class _BF:
+        Section = Makefile.Section
+
+        def cmd_var(self, cmd):
+            return Makefile('x').cmd_var(cmd)
+
+        def variable(self, name, value, section, exist_ok):
+            return name
+    lines = binstall._install_files(out, _BF(), ENV)
+    fixed = sorted(int(l[1]) for l in lines if isinstance(l, list) and l[:1] == ['fixup'])
+    ok = ok and fixed == sorted(want)
     return R(ok and bool(out) == any(explicit))
